@@ -37,17 +37,39 @@ class Scenario:
         self.validator = False
         self.gstats = {}
         self.dprobes = {}
+        self.profile = "small"
+        self.sync_interval_hint = None
 
     def describe(self):
-        return {"schema": self.schema, "records": jsonable(self.records[:6]),
+        return {"schema": self.schema, "profile": self.profile, "records": jsonable(self.records[:6]),
                 "n_records": len(self.records), "codec": self.codec,
                 "sync_interval": self.sync_interval, "sync_marker": jsonable(self.sync_marker),
                 "metadata": self.metadata, "level": self.level, "parsed": self.parsed}
 
 
 def container_scenario(ch, max_records=12, top="any", serial=True, logical=False, hints=False,
-                       big=False):
+                       big=False, size_profiles=False):
     sc = Scenario()
+    if size_profiles and ch.chance(4):
+        # swarm: size profile -- thousands of tiny records (multi-byte block counts, many blocks)
+        # or one record beyond 64 KiB (block length varint of 3 bytes, payload larger than any buffer)
+        sc.profile = ch.pick(["many_records", "huge_record"])
+        if sc.profile == "many_records":
+            sc.schema = {"type": "record", "name": "Tiny", "fields": [{"name": "serial", "type": "long"}, {"name": "t", "type": "string"}]}
+            n = ch.pick([300, 1000, 2500])
+            sc.records = [{"serial": i, "t": "r%d" % (i % 7)} for i in range(n)]
+            sc.sync_interval_hint = ch.pick([16000, 16000, 40, 700, 100000])
+        else:
+            sc.schema = {"type": "record", "name": "Huge", "fields": [{"name": "serial", "type": "long"}, {"name": "blob", "type": ch.pick(["string", "bytes"])}]}
+            big_n = ch.pick([65536, 70000, 200000])
+            blob = ("x" * big_n) if sc.schema["fields"][1]["type"] == "string" else (b"\x01" * big_n)
+            sc.records = [{"serial": 0, "blob": blob[:10]}, {"serial": 1, "blob": blob}, {"serial": 2, "blob": blob[:3]}]
+            sc.sync_interval_hint = ch.pick([16000, 1, 70000, 1000000])
+        sc.node = refavro.resolve(sc.schema)
+        sc.codec = draw_codec(ch, heavy_pct=15)
+        sc.sync_marker = ch.bytes(16) if ch.chance(60) else b""
+        sc.parsed = ch.chance(40)
+        return sc
     zero = ch.chance(4)
     if zero:
         sc.schema = gen.zero_byte_schema()
@@ -73,6 +95,13 @@ def container_scenario(ch, max_records=12, top="any", serial=True, logical=False
         sc.metadata = {ch.pick(["k", "user.key", "é"]): ch.pick(["", "v", "välue"])}
         if ch.chance(30):
             sc.metadata["second"] = "2"
+        if ch.chance(8):
+            # header larger than 64 KiB / many keys
+            if ch.draw(2):
+                sc.metadata["big"] = "m" * ch.pick([65536, 70000])
+            else:
+                for i in range(60):
+                    sc.metadata["key%03d" % i] = "välue" * (i % 5)
     if ch.chance(40):
         # codec_compression_level is accepted for every codec ("if the codec supports it")
         sc.level = ch.pick([0, 1, 6, 9, -1])
@@ -93,7 +122,9 @@ def encoded_sizes(sc):
     return out
 
 
-def draw_sync_interval(ch, sizes):
+def draw_sync_interval(ch, sizes, sc=None):
+    if sc is not None and sc.sync_interval_hint is not None:
+        return sc.sync_interval_hint
     total = sum(sizes)
     first = sizes[0] if sizes else 1
     mode = ch.draw(6)
